@@ -55,6 +55,18 @@ def make_envs(text, rng, n):
             txn["LastValid"] = rng.choice([5, 10, 20])
             group.append(txn)
         envs.append({"group": group, "index": rng.randrange(0, size), "creator": "CREATOR"})
+    # directed part: a program that looks at the kind of a transaction is run on EVERY kind valuation
+    # (TypeEnum, OnCompletion, ApplicationID) of the governed transaction and of every other member, on copies of the
+    # sampled groups (no further draw from rng: the sampled part above stays the same stream)
+    if envs and re.search(r"\b(TypeEnum|OnCompletion|ApplicationID)\b", text):
+        triples = [(t, 0, 0) for t in range(1, 6)] + [(6, oc, app) for oc in range(0, 6) for app in (0, 7)]
+        base = len(envs)
+        for k, (ty, oc, app) in enumerate(triples):
+            src = envs[k % base]
+            group = [dict(t) for t in src["group"]]
+            for t in group:
+                t["TypeEnum"], t["OnCompletion"], t["ApplicationID"] = ty, oc, app
+            envs.append({"group": group, "index": src["index"], "creator": src["creator"]})
     return envs
 
 
